@@ -61,6 +61,8 @@ def build_inputs(ctx):
     open(f, "r+b").truncate(os.path.getsize(f) - 8)
     with open(os.path.join(root, "rec.py"), "w") as fh:
         fh.write(tools.USER_RECIPE)
+    with open(os.path.join(root, "rec2.py"), "w") as fh:
+        fh.write(tools.USER_RECIPE2)
     # many small boxes on level 0 (a count that is no multiple of small batch sizes): work split by worker count
     many = plotgen.random_spec(rng, ndims=3, nlev=2, nf=3, data="smallint", B=2, nblk=[3, 3, 1], layout="files", refine_p=0.3, single0=False)
     many["levels"][0] = [[[2 * i, 2 * j, 0], [2 * i + 1, 2 * j + 1, 1]] for i in range(3) for j in range(3)]
@@ -160,6 +162,13 @@ def scenarios(root, spec):
             "mandoline-plotfile-gap": tree(lambda w: tools.mandoline(I("plt00010"), "plotfile", os.path.join(w, "o"), ["temp"], gap_position(spec)[0], gap_position(spec)[1]))}
            if gap_position(spec) is not None else {}),
         "mandoline-plotfile": tree(lambda w: tools.mandoline(I("plt00010"), "plotfile", os.path.join(w, "o"), ["temp"], 0, None)),
+        "mandoline-plotfile-serial": tree(lambda w: tools.mandoline(I("plt00010"), "plotfile", os.path.join(w, "o"), ["temp"], 0, None, serial=True)),
+        # a plane that meets nine boxes whose binary files alternate (0,1,2,0,1,2,...): the written order of the boxes
+        "mandoline-plotfile-many": tree(lambda w: tools.mandoline(I("pltmany"), "plotfile", os.path.join(w, "o"), ["temp", "density"], 2, None)),
+        "mandoline-plotfile-many-serial": tree(lambda w: tools.mandoline(I("pltmany"), "plotfile", os.path.join(w, "o"), ["temp", "density"], 2, None, serial=True)),
+        # a user recipe of two components
+        "chef2-pool": tree(lambda w: tools.chef(I("plt00010"), I("rec2.py"), os.path.join(w, "o"), kept="temp", serial=False)),
+        "chef2-serial": tree(lambda w: tools.chef(I("plt00010"), I("rec2.py"), os.path.join(w, "o"), kept="temp", serial=True)),
         "pestle": lambda w: {"integral": fbits(tools.pestle(I("plt00010"), "density", None, True))},
         "pestle-many": lambda w: {"integral": fbits(tools.pestle(I("pltmany"), "density", None, False)),
                                   "integral0": fbits(tools.pestle(I("pltmany"), "temp", 0, False))},
@@ -171,7 +180,8 @@ def scenarios(root, spec):
     return S
 
 
-SERIAL_OF = {"chef-pool": "chef-serial", "chef-thermo-pool": "chef-thermo-serial", "mandoline3d-gap-pool": "mandoline3d-gap-serial", "mandoline3d-pool": "mandoline3d-serial", "mandoline2d-pool": "mandoline2d-serial",
+SERIAL_OF = {"mandoline-plotfile": "mandoline-plotfile-serial", "mandoline-plotfile-many": "mandoline-plotfile-many-serial",
+             "chef2-pool": "chef2-serial", "chef-pool": "chef-serial", "chef-thermo-pool": "chef-thermo-serial", "mandoline3d-gap-pool": "mandoline3d-gap-serial", "mandoline3d-pool": "mandoline3d-serial", "mandoline2d-pool": "mandoline2d-serial",
              "mandoline2d-twice-pool": "mandoline2d-twice-serial", "mandoline3d-twice-pool": "mandoline3d-twice-serial"}
 
 
